@@ -42,6 +42,16 @@ class VThread:
 
 class Scheduler:
     def __init__(self, choices, max_steps=MAX_STEPS):
+        # two schedule forms: a list of small integers (one choice per yield point with >= 2 enabled
+        # threads), or {'segments': [[cls, n, k], ...]}: the running thread keeps the token until the
+        # n-th yield point of class cls (release/acquire/file/line/any), then thread k of the others runs;
+        # after the last segment nothing is preempted any more (few, targeted preemptions)
+        self.segments = None
+        if isinstance(choices, dict):
+            self.segments = [list(x) for x in choices['segments']]
+            self.si = 0
+            self.countdown = self.segments[0][1] if self.segments else 0
+            choices = []
         self.choices = list(choices)
         self.ci = 0
         self.threads = []
@@ -115,7 +125,7 @@ class Scheduler:
     def _enabled(self):
         return [t for t in self.threads if t.state == 'ready']
 
-    def _choose(self, cur):
+    def _choose(self, cur, label=None):
         """next thread to run, or None (all finished, or problem recorded)"""
         en = self._enabled()
         if not en:
@@ -126,6 +136,26 @@ class Scheduler:
             return None
         if len(en) == 1:
             return en[0]
+        if self.segments is not None:
+            seg = self.segments[self.si] if self.si < len(self.segments) else None
+            if cur not in en:
+                # the running thread blocked or finished: no preemption, a successor is needed
+                k = seg[2] if seg else 0
+                i = self.threads.index(cur) if cur in self.threads else 0
+                order = [t for t in self.threads[i + 1:] + self.threads[:i + 1] if t in en]
+                return order[k % len(order)]
+            if seg is None:
+                return cur
+            cls = seg[0]
+            if cls == 'any' or (label or '').startswith(cls):
+                self.countdown -= 1
+                if self.countdown <= 0:
+                    others = [t for t in en if t is not cur]
+                    self.si += 1
+                    if self.si < len(self.segments):
+                        self.countdown = self.segments[self.si][1]
+                    return others[seg[2] % len(others)]
+            return cur
         # rotate so that index 0 = keep running the current thread (if it is enabled)
         if cur in en:
             i = en.index(cur)
@@ -154,7 +184,7 @@ class Scheduler:
             self.problem = ('step-budget', 'more than %d yield points' % self.max_steps)
             self._abort_all()
             raise SchedAbort()
-        nxt = self._choose(cur)
+        nxt = self._choose(cur, label)
         if nxt is None or nxt is cur:
             return
         self.switches += 1
